@@ -95,6 +95,10 @@ def gen_history(seed):
     rng = stream(seed, 'hist')
     n_codes = rng.choice([1, 1, 2])
     codes = rng.sample(CODES, n_codes)
+    if rng.random() < 0.3:
+        # two distinct code objects of the same class and size (what a batch
+        # with two ranges on one lattice builds)
+        codes.append(list(codes[0]))
     noises = []
     for _ in range(rng.choice([1, 1, 2])):
         nz = dict(rng.choice(NOISES))
@@ -129,8 +133,12 @@ def gen_history(seed):
     for _ in range(rng.randint(3, 40)):
         r = rng.random()
         if r < 0.6:
-            ops.append({'op': 'run', 'sim': rng.randrange(len(sims)),
-                        'k': rng.choice([0, 1, 1, 2, 3, 5, 7])})
+            op = {'op': 'run', 'sim': rng.randrange(len(sims)),
+                  'k': rng.choice([0, 1, 1, 2, 3, 5, 7])}
+            if op['k'] >= 2 and rng.random() < 0.2:
+                # Ctrl-C arrives while trial j of this call is being run
+                op['ki_in_trial'] = rng.randrange(op['k'])
+            ops.append(op)
         elif r < 0.66:
             ops.append({'op': 'get_results',
                         'sim': rng.randrange(len(sims))})
@@ -163,6 +171,7 @@ class HistoryExec:
         self.n_checked = 0
         self.states = set()
         self.reloaded = set()
+        self.ki_at = None
 
     def violate(self, cls, detail):
         self.violations.append({'class': cls, 'detail': detail})
@@ -172,6 +181,16 @@ class HistoryExec:
         if k not in self.refs:
             self.refs[k] = (code, refmodel.RefCode(code))
         return self.refs[k][1]
+
+    def before_trial(self, proc):
+        """Interrupt seam: Ctrl-C lands while the j-th trial of the current
+        run(k) call is in progress (before anything of it is recorded)."""
+        if self.cur is None or self.ki_at is None:
+            return
+        if len(self.cur[1]) == self.ki_at:
+            self.ki_at = None
+            self.sim.count_fault('ki:inside_run_call')
+            raise KeyboardInterrupt()
 
     def on_trial(self, proc, ident, shot):
         """Invariant monitor at the run_once seam."""
@@ -245,7 +264,7 @@ class HistoryExec:
         dt_rng = stream(sim.seed, 'trial_dt')
         ledger = seams.Ledger(
             sim, trial_dt=lambda p: dt_rng.choice([0.001, 0.02, 0.3]),
-            on_trial=self.on_trial)
+            on_trial=self.on_trial, before_trial=self.before_trial)
         seams.install_entropy(sim.seed)
         seams.install_clock(sim.clock)
         ledger.install()
@@ -265,19 +284,27 @@ class HistoryExec:
                     s = self.objs[i]
                     shots = []
                     self.cur = (i, shots)
+                    self.ki_at = op.get('ki_in_trial')
+                    interrupted = False
                     try:
                         s.run(op['k'])
+                    except KeyboardInterrupt:
+                        # the caller catches it and carries on with the
+                        # same simulation object
+                        interrupted = True
                     except Exception as e:
                         self.violate('run_raised', {
                             'exc': type(e).__name__, 'msg': str(e)[:200]})
                         break
                     finally:
                         self.cur = None
-                    if len(shots) != op['k']:
+                    want_n = op['ki_in_trial'] if interrupted else op['k']
+                    if len(shots) != want_n:
                         self.violate('wrong_number_of_trials_executed', {
-                            'asked': op['k'], 'executed': len(shots)})
+                            'asked': op['k'], 'executed': len(shots),
+                            'interrupted': interrupted})
                         break
-                    totals[i] += op['k']
+                    totals[i] += want_n
                     recorded[i] += shots
                     self.check_accounting(i, s, totals[i], recorded[i])
                 elif kind == 'get_results':
@@ -703,12 +730,18 @@ def calibration_seq(plan):
         seams.clear_caches()
         from panqec.config import CODES as C
         from panqec.error_models import PauliErrorModel
-        code = C[plan['code'][0]](*plan['code'][1])
+        # one or two distinct code objects of the same class and size
+        codes = [C[plan['code'][0]](*plan['code'][1])
+                 for _ in range(plan.get('n_code_objects', 1))]
         p = plan['rate']
-        n = code.n
+        n = codes[0].n
         models = [PauliErrorModel(**nz) for nz in plan['noises']]
         order = plan.get('order') or list(range(len(models)))
-        for oi in order:
+        items = [(oi, ci) for ci in range(len(codes)) for oi in order]
+        if plan.get('recheck_first', True) and len(items) > 1:
+            items.append(items[0])      # aliasing: look at the first again
+        for pos, (oi, ci) in enumerate(items):
+            code = codes[ci]
             nz, noise = plan['noises'][oi], models[oi]
             pieces, f = locate_map(code, noise, p)
             meas = [{'I': 0.0, 'X': 0.0, 'Y': 0.0, 'Z': 0.0}
@@ -730,8 +763,8 @@ def calibration_seq(plan):
                         bad = {'qubit': i, 'pauli': c,
                                'measured': meas[i][c],
                                'stated': ref_ch[i][j],
-                               'model_index': oi,
-                               'position_in_sequence': order.index(oi),
+                               'model_index': oi, 'code_object': ci,
+                               'position_in_sequence': pos,
                                'noise': nz}
                         break
                 if bad:
@@ -743,7 +776,8 @@ def calibration_seq(plan):
                     for j in range(4):
                         if abs(float(pd[j][i]) - ref_ch[i][j]) > 1e-12:
                             bad = {'qubit': i, 'table_entry': j,
-                                   'model_index': oi, 'via':
+                                   'model_index': oi, 'code_object': ci,
+                                   'position_in_sequence': pos, 'via':
                                    'probability_distribution', 'noise': nz}
                             break
                     if bad:
@@ -793,6 +827,7 @@ def gen_calibration_seq(seed):
     rng.shuffle(order)
     return {'property': PROP, 'kind': 'calibration_seq', 'seed': seed,
             'code': code, 'noises': noises, 'order': order,
+            'n_code_objects': rng.choice([1, 2, 2]),
             'rate': rng.choice(RATES)}
 
 
